@@ -12,8 +12,9 @@ witness history is replayed on the implementation by the oracle (known findings 
 import TraitsVerif.Lemmas.DelegRun
 import TraitsVerif.Lemmas.DelegChain
 import TraitsVerif.Lemmas.DelegNotify
+import TraitsVerif.Lemmas.DelegWitness
 namespace TraitsVerif.Props.C11
-open TraitsVerif TraitsVerif.Model.Deleg
+open TraitsVerif TraitsVerif.Model.Deleg TraitsVerif.Model.Deleg.Witness
 
 /-! ## Naming: the forwarder listens to the attribute that reads and writes go to -/
 
@@ -127,24 +128,12 @@ def DelegatesWriteFull : Prop :=
 
 /-! ### witnesses -/
 
-def idEnv : Env := ⟨fun _ _ v => .ok v⟩
-def nx : Name := ['x']
-
-/-- Finding F20: `o0.x = DelegatesTo` → `o1.x = PrototypedFrom` → `o2.x` typed; o1 holds the local value 7. -/
-def protoPool : Pool :=
-  runPool idEnv 0
-    (mkPool [⟨none, [(nx, .defer (mkDelegate [] true))]⟩, ⟨none, [(nx, .defer (mkDelegate [] false))]⟩,
-             ⟨none, [(nx, .plain 0 3)]⟩])
-    [.swap 1 (some 2), .swap 0 (some 1), .set 1 nx 7]
-
-/-- … then `o0.x = 9` stores 9 into `o2` and `o0.x` still reads 7. -/
+/-- Finding F20 (`protoPool`: `o0.x = DelegatesTo` → `o1.x = PrototypedFrom`, holding the local value 7 →
+`o2.x` typed): then `o0.x = 9` stores 9 into `o2` and `o0.x` still reads 7. -/
 theorem C11_write_through_prototype_lost :
     let s := step idEnv 3 protoPool (.set 0 nx 9)
     s.res = .ok none ∧ read s.pool 4 0 nx = .ok 7 ∧ read s.pool 4 1 nx = .ok 7 ∧ read s.pool 4 2 nx = .ok 9 := by
   decide
-
-theorem protoPool_inv : Inv protoPool :=
-  runPool_inv idEnv _ 0 _ (mkPool_inv _ (by intro c hc; simp at hc; rcases hc with rfl | rfl | rfl <;> (unfold ClsWF; decide)))
 
 /-- **The full-strength write clause fails** on the code as it is (F20). -/
 theorem C11_write_through_prototype_fails : ¬ DelegatesWriteFull := by
@@ -154,15 +143,8 @@ theorem C11_write_through_prototype_fails : ¬ DelegatesWriteFull := by
   revert h2
   decide
 
-/-- Finding F19: `'*'` at two levels with different class prefixes: A(`a_`).x → B(`b_`).a_x → C. -/
-def starPool : Pool :=
-  runPool idEnv 0
-    (mkPool [⟨some ['a', '_'], [(nx, .defer (mkDelegate ['*'] true))]⟩,
-             ⟨some ['b', '_'], [(['a', '_', 'x'], .defer (mkDelegate ['*'] true))]⟩,
-             ⟨none, [(['a', '_', 'a', '_', 'x'], .plain 0 1), (['b', '_', 'a', '_', 'x'], .plain 0 2)]⟩])
-    [.swap 1 (some 2), .swap 0 (some 1)]
-
-/-- All-DelegatesTo chain, yet the assignment lands on `c.a_a_x` while reads come from `c.b_a_x`:
+/-- Finding F19 (`starPool`: `'*'` at two levels with different class prefixes, A(`a_`).x → B(`b_`).a_x → C):
+an all-DelegatesTo chain, yet the assignment lands on `c.a_a_x` while reads come from `c.b_a_x`:
 after `a.x = 5`, `a.x` still reads 2. -/
 theorem C11_write_star_chain_fails :
     let s := step idEnv 2 starPool (.set 0 nx 5)
@@ -175,5 +157,380 @@ theorem C11_write_star_chain_fails :
   have h2 := congrArg (fun s => (s.pool.obj 2).dict ['b', '_', 'a', '_', 'x']) h
   revert h2
   decide
+
+/-! ## PrototypedFrom: linked until assigned, then independent; `del` re-links -/
+
+/-- **Local assignment of a prototyped attribute.**  When the chain below it ends in the typed attribute
+`(x, t)` (validator `vid`): the value is validated by *that* trait's validator; on rejection nothing
+changes; on success the validated value is stored on the deferring object only (every other object, and
+every other attribute, is untouched: the prototype keeps its value), the forwarder is removed (link
+broken), the handlers of the attribute are told `(old value read through the link, new value)`, and the
+attribute reads as the assigned value from then on. -/
+theorem C11_prototype_assign (E : Env) (i : Nat) (p : Pool) (o : ObjId) (n : Name) (d : DelegInfo)
+    (x : ObjId) (t : Name) (vid : Nat) (dflt v : Val)
+    (htd : (p.obj o).cls.trait n = .defer d) (hm : d.modify = false)
+    (hw : walk p (p.obj o).cls.pfx 100 o d n = .ok (x, t, .plain vid dflt)) :
+    (p.obj x).cls.trait t = .plain vid dflt ∧
+    (∀ e, E.validate vid i v = .error e → step E i p (.set o n v) = fail p e) ∧
+    (∀ w old, E.validate vid i v = .ok w → read p p.fuel o n = .ok old →
+      let s := step E i p (.set o n v)
+      s.pool = unlink (p.setDict o n (some w)) o n ∧ s.res = .ok none ∧
+      s.events = (if old ≠ w then notify (p.setDict o n (some w)) (p.setDict o n (some w)).fuel o n old w else []) ∧
+      (s.pool.obj o).fwd n = none ∧
+      (∀ f, read s.pool (f + 1) o n = .ok w) ∧
+      (∀ j m, ¬(j = o ∧ m = n) → (s.pool.obj j).dict m = (p.obj j).dict m)) := by
+  refine ⟨(walk_ok hw).1.symm, ?_, ?_⟩
+  · intro e he
+    simp only [step, htd, setDefer, hw, hm, he]
+    rfl
+  · intro w old hv hr s
+    have hs : s = { pool := unlink (p.setDict o n (some w)) o n, res := .ok none,
+                    events := if old ≠ w then notify (p.setDict o n (some w)) (p.setDict o n (some w)).fuel o n old w
+                              else [] } := by
+      simp only [s, step, htd, setDefer, hw, hm, hv, hr]
+      rfl
+    rw [hs]
+    refine ⟨rfl, rfl, rfl, ?_, ?_, ?_⟩
+    · simp only [unlink_fwd]; simp
+    · intro f
+      simp only [Model.Deleg.read, unlink_dict, setDict_dict]; simp
+    · intro j m hjm
+      simp only [unlink_dict, setDict_dict, hjm, if_false]
+
+/-- **Independent once assigned**: whatever the rest of the history does — assignments on the
+prototype, on other objects, re-pointing any delegate — as long as it does not assign or delete this
+very attribute, a prototyped attribute that holds a local value keeps reading as that value. -/
+theorem C11_prototype_independent (E : Env) (p : Pool) (o : ObjId) (n : Name) (d : DelegInfo) (w : Val)
+    (htd : (p.obj o).cls.trait n = .defer d) (hloc : (p.obj o).dict n = some w)
+    (ops : List Op) (k : Nat) (hnt : ∀ op ∈ ops, op.touches o n = false) :
+    ∀ f, read (runPool E k p ops) (f + 1) o n = .ok w := by
+  intro f
+  have := runPool_untouched E o n d ops k p htd hnt
+  simp only [Model.Deleg.read, this, hloc]
+
+/-- **`del` restores the link.**  Deleting the local value of a prototyped attribute (chain ending in a
+typed attribute) removes the value; unless the operation raised after deleting (`broken`, only possible
+when re-hooking the listener fails) it succeeds and re-installs the forwarder hooked on the current
+delegate; in both cases the attribute reads through the delegate again. -/
+theorem C11_prototype_del_relinks (E : Env) (i : Nat) (p : Pool) (I : Inv p) (o : ObjId) (n : Name) (d : DelegInfo)
+    (x : ObjId) (t : Name) (vid : Nat) (dflt old : Val)
+    (htd : (p.obj o).cls.trait n = .defer d) (hm : d.modify = false)
+    (hw : walk p (p.obj o).cls.pfx 100 o d n = .ok (x, t, .plain vid dflt))
+    (hloc : (p.obj o).dict n = some old) :
+    let s := step E i p (.del o n)
+    (s.pool.obj o).dict n = none ∧
+    (s.broken = false → s.res = .ok none ∧ (s.pool.obj o).fwd n = some (s.pool.obj o).deleg) ∧
+    (∀ y, (p.obj o).deleg = some y →
+      ∀ f, read s.pool (f + 1) o n = read s.pool f y (targetName (p.obj o).cls.pfx n d)) := by
+  intro s
+  have hfwd : (p.obj o).fwd n = none := (I.fwd o n).2 d htd (by rw [hloc]; simp)
+  have hfr := effect_frame (step_effect E i p (.del o n))
+  -- the three possible outcomes
+  have hcases : (s.pool = p.setDict o n none ∧ s.broken = true) ∨
+      (∃ h evs, s = { pool := (p.setDict o n none).setFwd o n (some h), res := .ok none, events := evs } ∧
+        hook (p.setDict o n none) o n d = (h, false)) := by
+    simp only [s, step, htd, setDefer, hw, hm, hloc]
+    cases hr : read (p.setDict o n none) (p.setDict o n none).fuel o n with
+    | error e => exact Or.inl ⟨rfl, rfl⟩
+    | ok cur =>
+      simp only [relink, setDict_fwd, hfwd]
+      cases hh : hook (p.setDict o n none) o n d with
+      | mk h bad =>
+        cases bad with
+        | true => exact Or.inl ⟨rfl, rfl⟩
+        | false => exact Or.inr ⟨h, _, rfl, rfl⟩
+  have hdict : (s.pool.obj o).dict n = none := by
+    rcases hcases with ⟨hp, _⟩ | ⟨h, evs, hs, _⟩
+    · rw [hp, setDict_dict]; simp
+    · rw [hs]; simp only [setFwd_dict, setDict_dict]; simp
+  refine ⟨hdict, ?_, ?_⟩
+  · intro hb
+    rcases hcases with ⟨_, hbr⟩ | ⟨h, evs, hs, hh⟩
+    · rw [hbr] at hb; cases hb
+    · have := hook_ok (p := p.setDict o n none) (o := o) (n := n) (d := d) (by rw [hh])
+      rw [hh] at this
+      simp only at this
+      rw [hs]
+      refine ⟨rfl, ?_⟩
+      simp only [setFwd_fwd, setFwd_deleg]
+      simp [this]
+  · intro y hy f
+    have hcls : (s.pool.obj o).cls = (p.obj o).cls := hfr.2 o
+    have hdel : (s.pool.obj o).deleg = some y := by
+      rcases hcases with ⟨hp, _⟩ | ⟨h, evs, hs, _⟩
+      · rw [hp]; simp [hy]
+      · rw [hs]; simp [hy]
+    simp only [Model.Deleg.read, hdict, hcls, htd, hdel]
+
+/-- **The life cycle of a prototyped attribute**, in every reachable state `p` of every history:
+(a) while it holds no local value it reads as the target on the current delegate;
+(b) a local assignment is validated by the trait at the end of the prototype chain and, once accepted,
+the attribute reads as the accepted value after *any* continuation of the history that does not assign
+or delete this very attribute;
+(c) `del` removes the local value and the attribute reads through the current delegate again. -/
+theorem C11_prototype (E : Env) (cs : List Cls) (hwf : ∀ c ∈ cs, ClsWF c) (ops : List Op) (k : Nat)
+    (o : ObjId) (n : Name) (d : DelegInfo) :
+    let p := runPool E k (mkPool cs) ops
+    (p.obj o).cls.trait n = .defer d → d.modify = false →
+    ((p.obj o).dict n = none → ∀ y, (p.obj o).deleg = some y →
+        ∀ f, read p (f + 1) o n = read p f y (targetName (p.obj o).cls.pfx n d)) ∧
+    (∀ x t vid dflt, walk p (p.obj o).cls.pfx 100 o d n = .ok (x, t, .plain vid dflt) →
+      (p.obj x).cls.trait t = .plain vid dflt ∧
+      ∀ i v,
+        (∀ e, E.validate vid i v = .error e → step E i p (.set o n v) = fail p e) ∧
+        (∀ w old, E.validate vid i v = .ok w → read p p.fuel o n = .ok old →
+          ∀ (ops' : List Op) (k' : Nat), (∀ op ∈ ops', op.touches o n = false) →
+            ∀ f, read (runPool E k' (step E i p (.set o n v)).pool ops') (f + 1) o n = .ok w)) ∧
+    (∀ x t vid dflt old i, walk p (p.obj o).cls.pfx 100 o d n = .ok (x, t, .plain vid dflt) →
+      (p.obj o).dict n = some old →
+      ((step E i p (.del o n)).pool.obj o).dict n = none ∧
+      ∀ y, (p.obj o).deleg = some y → ∀ f, read (step E i p (.del o n)).pool (f + 1) o n
+        = read (step E i p (.del o n)).pool f y (targetName (p.obj o).cls.pfx n d)) := by
+  intro p htd hm
+  have I : Inv p := runPool_inv E ops k _ (mkPool_inv cs hwf)
+  refine ⟨fun hd y hy f => ?_, fun x t vid dflt hw => ?_, fun x t vid dflt old i hw hloc => ?_⟩
+  · simp only [Model.Deleg.read, hd, htd, hy]
+  · refine ⟨(walk_ok hw).1.symm, fun i v => ?_⟩
+    obtain ⟨_, h2, h3⟩ := C11_prototype_assign E i p o n d x t vid dflt v htd hm hw
+    refine ⟨h2, fun w old hv hr ops' k' hnt f => ?_⟩
+    obtain ⟨hpool, _, _, _, _, _⟩ := h3 w old hv hr
+    have hcls : ((step E i p (.set o n v)).pool.obj o).cls.trait n = .defer d := by
+      rw [(effect_frame (step_effect E i p (.set o n v))).2 o]; exact htd
+    refine C11_prototype_independent E _ o n d w hcls ?_ ops' k' hnt f
+    rw [hpool]; simp only [unlink_dict, setDict_dict]; simp
+  · obtain ⟨h1, _, h3⟩ := C11_prototype_del_relinks E i p I o n d x t vid dflt old htd hm hw hloc
+    exact ⟨h1, h3⟩
+
+/-! ## Re-pointing the delegate -/
+
+/-- **Swap.**  After `o.d = t` (a different object, or None): the delegate reference is `t`; no other
+object and no attribute value changed; every forwarder of `o` is hooked on the new delegate or on
+nothing — never on the old delegate — and on the new delegate exactly when no listener hook raised; and
+every linked deferring attribute of `o` reads through the new delegate.  (`C11_read`,
+`C11_delegates_write`, `C11_prototype_*` and `C11_notify` are stated for every reachable state, so they
+hold for the new delegate as well.) -/
+theorem C11_swap (E : Env) (i : Nat) (p : Pool) (I : Inv p) (o : ObjId) (t : Option ObjId)
+    (hne : (p.obj o).deleg ≠ t) :
+    let s := step E i p (.swap o t)
+    (s.pool.obj o).deleg = t ∧
+    (∀ j, (s.pool.obj j).dict = (p.obj j).dict ∧ (j ≠ o → (s.pool.obj j).deleg = (p.obj j).deleg ∧
+        (s.pool.obj j).fwd = (p.obj j).fwd)) ∧
+    (∀ n h, (s.pool.obj o).fwd n = some (some h) → t = some h) ∧
+    (s.hookExc = 0 → ∀ n, (p.obj o).fwd n ≠ none → (s.pool.obj o).fwd n = some t) ∧
+    (∀ n d y, (p.obj o).cls.trait n = .defer d → (p.obj o).dict n = none → t = some y →
+      ∀ f, read s.pool (f + 1) o n = read s.pool f y (targetName (p.obj o).cls.pfx n d)) := by
+  intro s
+  have hs : s = { pool := (rehook (p.setDeleg o t) o (p.obj o).cls.deferNames).1, res := .ok none,
+                  hookExc := (rehook (p.setDeleg o t) o (p.obj o).cls.deferNames).2 } := by
+    simp only [s, step, swap, hne, if_false]
+  have I' : Inv s.pool := effect_inv (step_effect E i p (.swap o t)) I
+  have hfr : ∀ j, _ := fun j => rehook_frame o (p.obj o).cls.deferNames (p.setDeleg o t) j
+  have hdel : (s.pool.obj o).deleg = t := by
+    rw [hs]; simp only []; rw [(hfr o).2.1, setDeleg_deleg]; simp
+  have hnd := deferNames_nodup _ (I.wf o)
+  refine ⟨hdel, ?_, ?_, ?_, ?_⟩
+  · intro j
+    rw [hs]; simp only []
+    refine ⟨by rw [(hfr j).2.2.1]; simp, fun hj => ⟨?_, ?_⟩⟩
+    · rw [(hfr j).2.1, setDeleg_deleg]; simp [hj]
+    · rw [(hfr j).2.2.2 hj]; simp
+  · intro n h hf
+    rw [← hdel]; exact I'.hook o n h hf
+  · intro hx n hf
+    rw [hs] at hx ⊢
+    simp only [] at hx ⊢
+    obtain ⟨d, htd⟩ := (I.fwd o n).1 hf
+    rw [rehook_fwd o _ _ n hnd, deferNames_lookup _ _ _ htd]
+    simp only [setDeleg_fwd]
+    cases hfn : (p.obj o).fwd n with
+    | none => exact absurd hfn hf
+    | some r =>
+      simp only []
+      have hok := rehook_noexc o _ _ hx hnd n d (deferNames_mem _ _ _ htd) (by simp only [setDeleg_fwd]; exact hf)
+      rw [hook_ok hok, setDeleg_deleg]; simp
+  · intro n d y htd hd ht f
+    have hcls : (s.pool.obj o).cls = (p.obj o).cls := (effect_frame (step_effect E i p (.swap o t))).2 o
+    have hdict : (s.pool.obj o).dict n = none := by
+      rw [hs]; simp only []; rw [(hfr o).2.2.1]; simpa using hd
+    simp only [Model.Deleg.read, hdict, hcls, htd, hdel, ht]
+
+/-! ## Chains of deferral -/
+
+/-- **Reading through a chain**: `k` linked levels of deferral (any mix of DelegatesTo and
+PrototypedFrom, any prefix styles) read as the attribute at the end of the chain. -/
+theorem C11_chain (p : Pool) (P : ObjId → DelegInfo → Prop) (k : Nat) (o : ObjId) (n : Name) (x : ObjId) (t : Name)
+    (hc : Chain p P k o n x t) : ∀ f, read p (k + f) o n = read p f x t :=
+  chain_read hc
+
+/-- **Writing through a chain** of at most 100 linked levels whose `'*'` levels agree on the class
+prefix of the top object, ending in a typed attribute: assignment through a DelegatesTo attribute at the
+top is the assignment of the attribute at the end of the chain (validated there, stored there, notified
+from there), and afterwards the top attribute reads as the attribute at the end. -/
+theorem C11_chain_write (E : Env) (i : Nat) (p : Pool) (k : Nat) (o : ObjId) (n : Name) (d : DelegInfo)
+    (x : ObjId) (t : Name) (vid : Nat) (dflt v : Val)
+    (hc : Chain p (StarAgree p (p.obj o).cls.pfx) (k + 1) o n x t) (hk : k + 1 ≤ 100)
+    (htd : (p.obj o).cls.trait n = .defer d) (hm : d.modify = true)
+    (hx : (p.obj x).cls.trait t = .plain vid dflt) :
+    step E i p (.set o n v) = step E i p (.set x t v) := by
+  have hnd : NonDefer ((p.obj x).cls.trait t) := by rw [hx]; intro d'; simp
+  have hw := wchain_walk hnd k o n d 100 htd (chain_wchain hc) hk
+  rw [hx] at hw
+  simp only [step, htd, setDefer, hw, hm, hx, if_true]
+
+/-- **The recursion limit**: when the attribute is still deferring after 100 levels, assignment and
+deletion through it raise DelegationError (a TraitError) and change nothing. -/
+theorem C11_chain_limit (E : Env) (i : Nat) (p : Pool) (o : ObjId) (n : Name) (d : DelegInfo)
+    (x : ObjId) (t : Name) (d' : DelegInfo) (v : Option Val)
+    (hc : WChain p (p.obj o).cls.pfx 100 o n x t) (htd : (p.obj o).cls.trait n = .defer d)
+    (hx : (p.obj x).cls.trait t = .defer d') :
+    setDefer E i p o n d v = fail p .traitError := by
+  have hw := wchain_walk_limit hx 100 o n d 100 htd hc (Nat.le_refl _)
+  simp only [setDefer, hw]
+
+/-! ## Notification -/
+
+/-- In every reachable state of a history during which no listener hook failed, every linked deferring
+attribute has its forwarder hooked on the current delegate. -/
+theorem C11_linked_reachable (E : Env) (cs : List Cls) (hwf : ∀ c ∈ cs, ClsWF c) (ops : List Op)
+    (hnf : NoHookFailure E 0 (mkPool cs) ops) :
+    Inv (runPool E 0 (mkPool cs) ops) ∧ Linked (runPool E 0 (mkPool cs) ops) :=
+  ⟨runPool_inv E ops 0 _ (mkPool_inv cs hwf),
+   runPool_linked E ops 0 _ (mkPool_inv cs hwf) (mkPool_linked cs) hnf⟩
+
+/-- **Linked → notified, once, with the new value.**  After any history (on classes built by
+`DelegatesTo` / `PrototypedFrom` with any of the four prefix styles) during which no listener hook
+failed: for a deferring attribute `(o, n)` that is linked (DelegatesTo, or PrototypedFrom without local
+value) and whose current delegate is `y`, every notification `(a, b)` of the target attribute on `y`
+— `notify p _ y t a b` is `call_notifiers` for `(y, t)` — calls the handlers of `(o, n)` with the same
+old and new value; exactly once when the delegate graph is acyclic. -/
+theorem C11_notify (E : Env) (cs : List Cls) (hok : ∀ c ∈ cs, ClsOK c) (ops : List Op)
+    (hnf : NoHookFailure E 0 (mkPool cs) ops) (o : ObjId) (n : Name) (d : DelegInfo) (y : ObjId) :
+    let p := runPool E 0 (mkPool cs) ops
+    o < p.size → (p.obj o).cls.trait n = .defer d → (d.modify = true ∨ (p.obj o).dict n = none) →
+    (p.obj o).deleg = some y →
+    (o, n) ∈ forwarders p y (targetName (p.obj o).cls.pfx n d) ∧
+    (∀ f a b, (⟨o, n, a, b⟩ : Event) ∈ notify p (f + 2) y (targetName (p.obj o).cls.pfx n d) a b) ∧
+    (∀ rank : ObjId → Nat, (∀ o' y', (p.obj o').deleg = some y' → rank y' < rank o') →
+      ∀ f a b, (notify p (f + 2) y (targetName (p.obj o).cls.pfx n d) a b).countP
+        (fun e => decide (e.obj = o ∧ e.name = n)) = 1) := by
+  intro p ho htd hl hy
+  obtain ⟨I, L⟩ := C11_linked_reachable E cs (fun c hc => (hok c hc).1) ops hnf
+  have hd : (p.obj o).dict n = none := by
+    rcases hl with hm | hd
+    · exact I.noLocal o n d htd hm
+    · exact hd
+  have hcls : ClsOK (p.obj o).cls := by
+    rw [(runPool_frame E ops 0 (mkPool cs)).2 o]
+    obtain ⟨c, hc, hm⟩ := mkPool_obj cs o
+    rw [hc]
+    rcases hm with hm | rfl
+    · exact hok c hm
+    · exact clsOK_empty
+  have hmem := forwarder_of_linked L ho hcls htd hd hy
+  refine ⟨hmem, fun f a b => notify_contains hmem f a b, fun rank hr f a b => ?_⟩
+  exact notify_count_one I.wf (acyclic_of_deleg I.hook rank hr) hmem f a b
+
+/-- The same, seen from an assignment: in a state where the links are hooked, assigning the (typed)
+target attribute on the current delegate a value that differs from the old one puts the event
+`(o, n, old, new)` among the events of the operation. -/
+theorem C11_notify_on_assign (E : Env) (i : Nat) (p : Pool) (I : Inv p) (L : Linked p) (o : ObjId) (n : Name)
+    (d : DelegInfo) (y : ObjId) (vid : Nat) (dflt v w : Val)
+    (ho : o < p.size) (hcls : ClsOK (p.obj o).cls)
+    (htd : (p.obj o).cls.trait n = .defer d) (hd : (p.obj o).dict n = none) (hy : (p.obj o).deleg = some y)
+    (hx : (p.obj y).cls.trait (targetName (p.obj o).cls.pfx n d) = .plain vid dflt)
+    (hv : E.validate vid i v = .ok w)
+    (hch : ((p.obj y).dict (targetName (p.obj o).cls.pfx n d)).getD dflt ≠ w) :
+    (⟨o, n, ((p.obj y).dict (targetName (p.obj o).cls.pfx n d)).getD dflt, w⟩ : Event)
+      ∈ (step E i p (.set y (targetName (p.obj o).cls.pfx n d) v)).events := by
+  have he := step_effect E i p (.set y (targetName (p.obj o).cls.pfx n d) v)
+  have hs : step E i p (.set y (targetName (p.obj o).cls.pfx n d) v) =
+      setPlain E i p y (targetName (p.obj o).cls.pfx n d) vid dflt v := by simp only [step, hx]
+  rw [hs] at he ⊢
+  simp only [setPlain, hv, hch, ne_eq, not_false_eq_true, if_true] at he ⊢
+  have L' := effect_linked he rfl rfl I L
+  have hnd : NonDefer ((p.obj y).cls.trait (targetName (p.obj o).cls.pfx n d)) := by rw [hx]; intro d'; simp
+  have hmem := forwarder_of_linked L' (o := o) (by simpa using ho) (by simpa using hcls) (n := n) (d := d)
+    (by simpa using htd) (by rw [setDict_nondefer_dict hnd htd]; exact hd) (y := y) (by simpa using hy)
+  simp only [setDict_cls] at hmem
+  have hfuel : (p.setDict y (targetName (p.obj o).cls.pfx n d) (some w)).fuel = (p.size - 1) + 2 := by
+    show p.size + 1 = p.size - 1 + 2
+    have ho' : @LT.lt Nat _ o p.size := ho
+    omega
+  rw [hfuel]
+  exact notify_contains hmem _ _ _
+
+/-- **Unlinked → not notified**, in every reachable state of every history (hook failures or not): a
+prototyped attribute that holds a local value has no forwarder, and no notification cascade started on
+another attribute ever contains an event for it. -/
+theorem C11_notify_unlinked (E : Env) (cs : List Cls) (hwf : ∀ c ∈ cs, ClsWF c) (ops : List Op) (k : Nat)
+    (o : ObjId) (n : Name) (d : DelegInfo) :
+    let p := runPool E k (mkPool cs) ops
+    (p.obj o).cls.trait n = .defer d → (p.obj o).dict n ≠ none →
+    (p.obj o).fwd n = none ∧
+    ∀ f x t a b, ¬(x = o ∧ t = n) → ∀ e ∈ notify p f x t a b, ¬(e.obj = o ∧ e.name = n) := by
+  intro p htd hd
+  have I : Inv p := runPool_inv E ops k _ (mkPool_inv cs hwf)
+  have hf := (I.fwd o n).2 d htd hd
+  refine ⟨hf, fun f x t a b hne e he => ?_⟩
+  rintro ⟨ho, hn⟩
+  obtain ⟨_, _, h3⟩ := notify_mem f x t e he
+  rcases h3 with ⟨h1, h2⟩ | ⟨h, hh⟩
+  · exact hne ⟨by rw [← h1, ho], by rw [← h2, hn]⟩
+  · rw [ho, hn, hf] at hh; cases hh
+
+/-- The notification clause at full strength: linked → notified, in every reachable state of **every**
+history (without the `NoHookFailure` hypothesis of `C11_notify`). -/
+def NotifyFull : Prop :=
+  ∀ (E : Env) (cs : List Cls), (∀ c ∈ cs, ClsOK c) → ∀ (ops : List Op) (o : ObjId) (n : Name) (d : DelegInfo) (y : ObjId),
+    let p := runPool E 0 (mkPool cs) ops
+    o < p.size → (p.obj o).cls.trait n = .defer d → (d.modify = true ∨ (p.obj o).dict n = none) →
+    (p.obj o).deleg = some y → (o, n) ∈ forwarders p y (targetName (p.obj o).cls.pfx n d)
+
+/-! ### witnesses -/
+
+/-- Finding F18 (`topDown`: the chain `o0.x → o1.x → o2.x` wired top-down).  The first re-pointing makes a listener hook raise (swallowed): `o1.base_trait('x')` fails because
+`o1.d` is still None; afterwards `o0.x` is linked and reads through to `o2`, but the change of `o2.x`
+reaches the handlers of `o1.x` only. -/
+theorem C11_notify_hook_failure_witness :
+    let p := runPool idEnv 0 (mkPool [clsD, clsD, clsT]) topDown
+    (step idEnv 0 (mkPool [clsD, clsD, clsT]) (.swap 0 (some 1))).hookExc = 1 ∧
+    (p.obj 0).deleg = some 1 ∧ (p.obj 0).fwd nx = some none ∧ read p 4 0 nx = .ok 3 ∧
+    (step idEnv 2 p (.set 2 nx 5)).events = [⟨2, nx, 3, 5⟩, ⟨1, nx, 3, 5⟩] ∧
+    read (step idEnv 2 p (.set 2 nx 5)).pool 4 0 nx = .ok 5 := by
+  decide
+
+/-- **The full-strength notification clause fails** on the code as it is (F18). -/
+theorem C11_notify_full_fails : ¬ NotifyFull := by
+  intro h
+  have := h idEnv [clsD, clsD, clsT] (by
+    intro c hc
+    simp only [List.mem_cons, List.not_mem_nil, or_false] at hc
+    rcases hc with rfl | rfl | rfl
+    · exact clsD_ok
+    · exact clsD_ok
+    · exact clsT_ok) topDown 0 nx (mkDelegate [] true) 1 (by decide) (by decide) (Or.inl rfl) (by decide)
+  revert this
+  decide
+
+/-! ### the hypotheses of the main theorems are satisfiable -/
+
+/-- The same three objects wired bottom-up (`bottomUp`): no hook fails, … -/
+example : NoHookFailure idEnv 0 (mkPool [clsD, clsD, clsT]) bottomUp := by
+  unfold NoHookFailure; decide
+
+/-- … `C11_notify` applies to `(o0, x)` with delegate `o1`, and the cascade of `o2.x` reaches it. -/
+example : (⟨0, nx, 3, 5⟩ : Event) ∈
+    (step idEnv 2 (runPool idEnv 0 (mkPool [clsD, clsD, clsT]) bottomUp) (.set 2 nx 5)).events := by decide
+
+example : Chain (runPool idEnv 0 (mkPool [clsD, clsD, clsT]) bottomUp)
+    (StarAgree (runPool idEnv 0 (mkPool [clsD, clsD, clsT]) bottomUp) none) 2 0 nx 2 nx :=
+  .succ (d := mkDelegate [] true) (y := 1) (by decide) (by decide) (by decide) (by intro h; cases h)
+    (.succ (d := mkDelegate [] true) (y := 2) (by decide) (by decide) (by decide) (by intro h; cases h) (.zero 2 nx))
+
+/-- `C11_prototype_assign` / `C11_prototype_del_relinks`: a prototyped attribute over a typed one. -/
+example : walk protoPool (protoPool.obj 1).cls.pfx 100 1 (mkDelegate [] false) nx = .ok (2, nx, .plain 0 3) := by
+  decide
+
+example : (protoPool.obj 1).dict nx = some 7 ∧ (protoPool.obj 1).fwd nx = none := by decide
 
 end TraitsVerif.Props.C11
